@@ -113,6 +113,18 @@ def _distinct_lits(facts, x):
                         holds = True
                     if (f[1], f[2], f[3]) in (("<", ls, ll), (">", ll, ls)):
                         refuted = True
+    # Counter(X).values() all <= 1  /  some value > 1
+    for X in xs:
+        cnt = CallT("ext:collections.Counter", [X])
+        for f in facts:
+            if f[0] == "forall" and f[1] == cnt:
+                v = Sub(cnt, ("elem", cnt, f[2]))
+                if any(g[0] == "cmp" and ((g[1], g[2], g[3]) in (("<=", v, C(1)), ("<", v, C(2)), (">=", C(1), v), (">", C(2), v))) for g in f[3]):
+                    holds = True
+            if f[0] == "exists" and f[1] == cnt:
+                v = Sub(cnt, ("elem", cnt, f[2]))
+                if f[3] and all(any(g[0] == "cmp" and ((g[1], g[2], g[3]) in ((">", v, C(1)), (">=", v, C(2)), ("<", C(1), v), ("<=", C(2), v))) for g in alt) for alt in f[3]):
+                    refuted = True
     return holds, refuted
 
 
